@@ -298,8 +298,48 @@ def switch_family_case(k, seed):
     return build_case_model(m, {"switch-family", "conditional", "requires"}, rnd, 0, 0, buffer_plan=plan)
 
 
+def stride_family_module(k, seed):
+    """Always part of the run: fields placed after a run-time count times a stride that is not a
+    power of two (start known only modulo 12, 20, 10, 6, 24, 40, ...), of widths for which the
+    runtime has aligned fast paths.  Returns (module, buffer plan)."""
+    rnd = random.Random(seed * 1000033 + k)
+    m = M.Module("m.emb")
+    m.default_byte_order = rnd.choice(["LittleEndian", "BigEndian"])
+    m.namespace = "v::ns"
+    st_ = M.Struct("struct", "Tab")
+    st_.fields.append(M.Field("count", ("n", 0), ("n", 1), M.Type("UInt", 8)))
+    stride = rnd.choice([12, 20, 10, 6, 24, 40, 3, 5, 36])
+    base = rnd.choice([8, 4, 16, 2, 1])
+    w = rnd.choice([8, 4, 2, 8, 4])
+    start = ("op", "+", ("n", base), ("op", "*", ("r", ("count",)), ("n", stride)))
+    st_.fields.append(M.Field("rows", ("n", base), ("op", "*", ("r", ("count",)), ("n", stride)), M.Type("UInt", 8, explicit=True, dims=[None])))
+    tr = M.Field("trailer", start, ("n", w), M.Type(rnd.choice(["UInt", "Int"]), 8 * w))
+    tr.end_max = base + 3 * stride + w
+    st_.fields.append(tr)
+    st_.fields.append(M.Field("twice", value=("op", "+", ("r", ("trailer",)), ("r", ("trailer",)))) if w <= 4 else M.Field("cnt2", value=("op", "+", ("r", ("count",)), ("n", 1))))
+    m.types.append(st_)
+    semgen.set_parents(st_, None)
+
+    def plan(s):
+        out = []
+        for c in (0, 1, 2, 3):
+            n = base + c * stride + w
+            b = bytes([c]) + bytes(byte_pool(rnd) for _ in range(n - 1 + rnd.choice([0, 0, 3])))
+            out.append((b, sorted(set([len(b), n, n - 1, 1, 0, max(0, base + c * stride)]))))
+        return out
+
+    return m, plan
+
+
+def stride_family_case(k, seed):
+    m, plan = stride_family_module(k, seed)
+    return build_case_model(m, {"stride-family", "dynamic-offset", "dynamic-array"}, random.Random(seed * 7 + k), 0, 0, buffer_plan=plan, aligned_fn=lambda r: r.choice([0, 0, 2, 4, 8]))
+
+
 def build_case(case_seed, nbase, nprefix):
     """Returns dict(text, module, script, expectations) or None if rejected."""
+    if isinstance(case_seed, tuple) and case_seed[0] == "stride-family":
+        return stride_family_case(case_seed[1], case_seed[2])
     if isinstance(case_seed, tuple) and case_seed[0] == "switch-family":
         return switch_family_case(case_seed[1], case_seed[2])
     rnd = random.Random(case_seed)
@@ -501,7 +541,7 @@ def run(ctx):
     ]
     nmod = ctx.pick(48, 640)
     rnd = random.Random(ctx.seed * 7919 + 17)
-    seeds = [rnd.randrange(2**62) for _ in range(nmod)] + ["literal-array"] + [("switch-family", k, ctx.seed) for k in range(ctx.pick(4, 24))]
+    seeds = [rnd.randrange(2**62) for _ in range(nmod)] + ["literal-array"] + [("switch-family", k, ctx.seed) for k in range(ctx.pick(4, 24))] + [("stride-family", k, ctx.seed) for k in range(ctx.pick(4, 24))]
     ctx.stats = run_batch(ctx, seeds, ctx.pick(4, 6), ctx.pick(14, 24), "b0")
     return ctx.finish(None)
 
